@@ -31,6 +31,7 @@ mod ser_ws;
 mod suite_ser;
 mod suite_fws;
 mod scope_dedup_class;
+mod scope_names;
 mod scope_oracle;
 mod suite_scope;
 mod suite_tree;
